@@ -325,6 +325,24 @@ def gen_plan(rng, family):
             if plan["timeout"] and rng.random() < 0.4:
                 main.append(["pause"])
         plan["final"] = "none"
+    elif family == "leakexit":                  # C08 delivered / C07-like: a worker leaves an idle or busy executor through the memory-leak protection
+        plan["workers"] = rng.choice([1, 2, 2, 3])
+        plan["timeout"] = rng.choice([None, None, 0.05])
+        plan["reusable"] = rng.random() < 0.3
+        for _ in range(plan["workers"] + rng.randint(0, 2)):
+            main.append(["submit", "value"])          # warm-up: the reference measurement is taken after a worker's first task
+        main.append(["await_all"])
+        for _ in range(rng.choice([1, 1, 2])):
+            main.append(["submit", "leak"])
+            if rng.random() < 0.5:
+                main.append(["submit", "value"])
+        if rng.random() < 0.7:
+            main.append(["await_all"])
+        if rng.random() < 0.5:
+            main.append(["pause"])
+        for _ in range(plan["workers"] + rng.randint(0, 2)):
+            main.append(["submit", "block"])
+        plan["final"] = "none"
     elif family == "satreuse":                  # C08 delivered, reusable executor: created small, resized up, then saturated (the call queue is created once)
         plan["reusable"] = True
         plan["workers"] = rng.choice([1, 1, 2])
@@ -794,7 +812,7 @@ def analyze(plan, r):
         hang_props.append("C02")
     if fam in ("killshutdown", "killbadarg") or (fam == "cancelfail" and notes.get("shutdown") == "kill"):
         hang_props.append("C06")
-    if fam in ("plain", "full", "timeout", "saturate", "spawnfail") and not kills:
+    if fam in ("plain", "full", "timeout", "saturate", "spawnfail", "leakexit") and not kills:
         hang_props += ["C04", "C03", "C08"]
     if fam in ("callback", "excs"):
         hang_props += ["C04"]
@@ -826,7 +844,7 @@ def analyze(plan, r):
         or (fam == "spawnfail" and notes.get("late_submit") in ("BlockingIOError", "OSError"))
     # (a submit() that failed because a worker could not be started leaves its item registered: observation O3, outside the
     #  properties' fault model -- in that family only the routing of results is judged, not liveness)
-    if fam not in ("saturate", "satreuse") and not spawn_failed and r.status in ("quiescent", "polling") and (not r.users_done or pending):
+    if fam not in ("saturate", "satreuse", "leakexit") and not spawn_failed and r.status in ("quiescent", "polling") and (not r.users_done or pending):
         sig = (f"hang status[{r.status}] blocked[{','.join(blocked)}] dead-holders[{','.join(sorted(set(dead_holders)))}] "
                f"crashes[{','.join(sorted(set(crashes)))}] ctx[{ctx}]")
         if any(b_.endswith("sem.acquire:cq.slot") for b_ in blocked):
@@ -1018,8 +1036,8 @@ def analyze(plan, r):
     mx = getattr(r, "max_registered", None)
     if mx is not None and mx[0] > mx[1]:
         add(["C08"], "over-parallel", f"registered-workers-exceed-max got[{mx[0]}] max[{mx[1]}] ctx[{ctx}]")
-    if fam == "saturate" and r.status == "quiescent":
-        want = min(plan["workers"], len(r.kinds))
+    if fam in ("saturate", "leakexit") and r.status == "quiescent":
+        want = min(plan["workers"], sum(1 for k in r.kinds.values() if k == "block")) if fam == "leakexit" else min(plan["workers"], len(r.kinds))
         if len(RUNNING_NOW) != want:
             add(["C08"], "under-parallel", f"saturated-pool-runs[{len(RUNNING_NOW)}]-of[{want}] ctx[{ctx}]",
                 f"blocked: {blocked}")
